@@ -251,6 +251,8 @@ def as_sequence(eng, v):
         return v.proto["__iter_seq__"](eng, v)
     if isinstance(v, _DictItems) and v.d.items is None:
         return dict_enumeration(eng, v.d)
+    if hasattr(v, "__pyvc_iter_seq__"):  # extension values: (length, getter) of their own enumeration
+        return v.__pyvc_iter_seq__(eng)
     raise Unsupported(f"symbolic iteration over {type(v).__name__}")
 
 
@@ -471,6 +473,8 @@ def check_frame(eng, v):
 
 # --------------------------------------------------------------- contains
 def contains(eng, container, item):
+    if hasattr(container, "__pyvc_contains__"):  # extension values (pyvc/ext_*.py) bring their own membership test
+        return container.__pyvc_contains__(eng, item)
     if isinstance(container, PDict):
         if container.items is not None:
             if isinstance(item, Sym):
